@@ -85,6 +85,12 @@ theorem dms_step (n : Nat) (s : State) (op : Op) (c u : Nat) :
   | unregister e' u' =>
     simp only [step]
     split <;> simp
+  | engineDown e' =>
+    simp only [step]
+    split <;> simp
+  | engineUp e' =>
+    simp only [step]
+    split <;> simp
 
 theorem mem_dropUsers (dms : List (Nat × Nat)) (us : List Nat) (active : List (Nat × Nat)) (p : Nat × Nat) :
     p ∈ dropUsers dms us active ↔ p ∈ active ∧ (p.2 ∈ us → ∃ c, (c, p.2) ∈ dms) := by
@@ -116,8 +122,10 @@ theorem active_step (n : Nat) (s : State) (op : Op) (e u : Nat) :
       match op with
       | .subscribe _ _ => (e, u) ∈ s.active
       | .disconnect c => (e, u) ∈ s.active ∧ ((c, u) ∈ s.dms → ∃ c', c' ≠ c ∧ (c', u) ∈ s.dms)
-      | .register e' u' => (e, u) ∈ s.active ∨ (e' < n ∧ e = e' ∧ u = u')
-      | .unregister e' u' => (e, u) ∈ s.active ∧ ¬ (e' < n ∧ e = e' ∧ u = u') := by
+      | .register e' u' => (e, u) ∈ s.active ∨ ((e' < n ∧ e' ∉ s.down) ∧ e = e' ∧ u = u')
+      | .unregister e' u' => (e, u) ∈ s.active ∧ ¬ ((e' < n ∧ e' ∉ s.down) ∧ e = e' ∧ u = u')
+      | .engineDown e' => (e, u) ∈ s.active ∧ ¬ ((e' < n ∧ e' ∉ s.down) ∧ e = e')
+      | .engineUp e' => (e, u) ∈ s.active ∧ ¬ (e' < n ∧ e = e') := by
   cases op with
   | subscribe c ts => simp [step]
   | disconnect c =>
@@ -149,14 +157,94 @@ theorem active_step (n : Nat) (s : State) (op : Op) (e u : Nat) :
     simp only [step]
     split
     · rename_i hc
-      simp only [List.mem_filter, bne_iff_ne, ne_eq, Prod.mk.injEq, hc.1, true_and]
+      simp only [List.mem_filter, bne_iff_ne, ne_eq, Prod.mk.injEq, hc.1, true_and, not_false_eq_true, and_self]
     · rename_i hc
-      simp only [not_and]
       constructor
       · intro h
-        refine ⟨h, fun hlt he hu => ?_⟩
+        refine ⟨h, fun ⟨hk, he, hu⟩ => ?_⟩
         subst he hu
-        exact hc ⟨hlt, h⟩
+        exact hc ⟨hk, h⟩
       · exact fun h => h.1
+  | engineDown e' =>
+    simp only [step]
+    split
+    · rename_i hc
+      simp only [List.mem_filter, bne_iff_ne, ne_eq, hc, true_and, not_false_eq_true, and_self]
+    · rename_i hc
+      simp [hc]
+  | engineUp e' =>
+    simp only [step]
+    split
+    · rename_i hc
+      simp only [List.mem_filter, bne_iff_ne, ne_eq, hc, true_and]
+    · rename_i hc
+      simp [hc]
+
+/-- Effect of one event on the set of units that are away. -/
+theorem down_step (n : Nat) (s : State) (op : Op) (e : Nat) :
+    e ∈ (step n s op).1.down ↔
+      match op with
+      | .engineDown e' => e ∈ s.down ∨ (e = e' ∧ e' < n)
+      | .engineUp e' => e ∈ s.down ∧ ¬ (e' < n ∧ e = e')
+      | _ => e ∈ s.down := by
+  cases op with
+  | subscribe c ts => simp [step]
+  | disconnect c => simp [step]
+  | register e' u' => simp only [step]; split <;> simp
+  | unregister e' u' => simp only [step]; split <;> simp
+  | engineDown e' =>
+    simp only [step]
+    split
+    · rename_i hc
+      simp only [List.mem_cons]
+      constructor
+      · rintro (rfl | h)
+        · exact Or.inr ⟨rfl, hc.1⟩
+        · exact Or.inl h
+      · rintro (h | ⟨rfl, _⟩)
+        · exact Or.inr h
+        · exact Or.inl rfl
+    · rename_i hc
+      constructor
+      · exact Or.inl
+      · rintro (h | ⟨rfl, hlt⟩)
+        · exact h
+        · exact Classical.byContradiction fun hd => hc ⟨hlt, hd⟩
+  | engineUp e' =>
+    simp only [step]
+    split
+    · rename_i hc
+      simp only [List.mem_filter, bne_iff_ne, ne_eq, hc, true_and]
+    · rename_i hc
+      simp [hc]
+
+/-- Invariant: only units that exist and are in the map have a list. -/
+theorem active_up (n : Nat) (h : List Op) (e u : Nat) (hl : (e, u) ∈ (run n h).active) :
+    e < n ∧ e ∉ (run n h).down := by
+  induction h using snoc_induction generalizing e u with
+  | nil => simp [run, init] at hl
+  | snoc h op ih =>
+    rw [run_snoc] at hl ⊢
+    rw [active_step] at hl
+    rw [down_step]
+    cases op with
+    | subscribe c ts => exact ih e u hl
+    | disconnect c => exact ih e u hl.1
+    | register e' u' =>
+      rcases hl with hl | ⟨hk, rfl, rfl⟩
+      · exact ih e u hl
+      · exact hk
+    | unregister e' u' => exact ih e u hl.1
+    | engineDown e' =>
+      simp only at hl ⊢
+      have := ih e u hl.1
+      refine ⟨this.1, ?_⟩
+      rintro (hd | ⟨rfl, hlt⟩)
+      · exact this.2 hd
+      · exact hl.2 ⟨⟨hlt, this.2⟩, rfl⟩
+    | engineUp e' =>
+      simp only at hl ⊢
+      have := ih e u hl.1
+      exact ⟨this.1, fun hd => this.2 hd.1⟩
 
 end OPM.ActiveUsers
